@@ -36,18 +36,47 @@ def build_ir(outdir, repo_sources, harness, env_c=('vlibc.c',), extra_cpp=(), de
     return linked
 
 
+def _hdr_digest():
+    h = hashlib.sha1()
+    inc = REPO + '/include/asl'
+    for f in sorted(os.listdir(inc)):
+        h.update(f.encode()); h.update(open(inc + '/' + f, 'rb').read())
+    for f in sorted(os.listdir(VERIF + '/env')):
+        if f.endswith('.h'): h.update(open(VERIF + '/env/' + f, 'rb').read())
+    return h.hexdigest()
+
+
 def build_native(outdir, repo_sources, harness, extra_cpp=(), defines=(), sanitize=True):
+    """native replay binary: harness + ALL of /repo/src (so every symbol resolves), ASan+UBSan.
+    Objects of repo sources are cached by content hash of (flags, source, all headers): the cache only
+    saves compile time, a changed source or header always recompiles."""
     os.makedirs(outdir, exist_ok=True)
+    cache = os.environ.get('VP_CACHE', '/tmp/vp_cache')
+    os.makedirs(cache, exist_ok=True)
     san = ['-fsanitize=address,undefined', '-fno-sanitize-recover=undefined', '-fno-omit-frame-pointer'] if sanitize else []
+    base = ['g++'] + CXXFLAGS + list(defines) + ['-DVP_NATIVE', '-O1', '-g', '-w', '-fno-strict-aliasing'] + san
+    hd = _hdr_digest()
     jobs = []
     objs = []
-    srcs = [REPO + '/src/' + f for f in repo_sources] + list(extra_cpp) + [harness, VERIF + '/env/vp_native.cpp']
-    for f in srcs:
+    allsrc = sorted(f for f in os.listdir(REPO + '/src') if f.endswith('.cpp') and f != 'TlsSocket.cpp')
+    for f in allsrc:
+        src = REPO + '/src/' + f
+        key = hashlib.sha1((' '.join(base) + hd).encode() + open(src, 'rb').read()).hexdigest()
+        o = cache + '/' + key + '.o'
+        objs.append(o)
+        if not os.path.exists(o):
+            jobs.append((base + ['-c', src, '-o', o + '.tmp%d_%d' % (os.getpid(), id(objs))], o))
+    for f in list(extra_cpp) + [harness, VERIF + '/env/vp_native.cpp']:
         o = outdir + '/' + os.path.basename(f) + '.o'
         objs.append(o)
-        jobs.append(['g++'] + CXXFLAGS + list(defines) + ['-DVP_NATIVE', '-O1', '-g', '-w', '-fno-strict-aliasing'] + san + ['-c', f, '-o', o])
+        jobs.append((base + ['-c', f, '-o', o], None))
+
+    def comp(j):
+        cmd, final = j
+        run(cmd)
+        if final: os.replace(cmd[-1], final)
     with ThreadPoolExecutor(16) as ex:
-        list(ex.map(run, jobs))
+        list(ex.map(comp, jobs))
     exe = outdir + '/native'
-    run(['g++'] + san + ['-rdynamic', '-Wl,--unresolved-symbols=ignore-all', '-Wl,-z,notext', '-o', exe] + objs + ['-ldl', '-lpthread'])
+    run(['g++'] + san + ['-rdynamic', '-o', exe] + objs + ['-ldl', '-lpthread'])
     return exe
